@@ -188,9 +188,14 @@ def attach_loops(body, loops, report):
             out = out[:s] + new_head + body_open + out[ob + 1:]
             report['rewrites']['R5c for-loop desugared to an index loop'] = report['rewrites'].get('R5c for-loop desugared to an index loop', 0) + 1
             continue
+        gname = 'it'
+        if first.startswith('iter '):
+            # the ghost iterator gets another name (the loop's own pattern variable is called `it`)
+            gname = first.split()[1]
+            clause = clause.lstrip().split('\n', 1)[1] if '\n' in clause.lstrip() else ''
         if kw == 'for':
             # `for PAT in EXPR` -> `for PAT in it: EXPR`
-            head2, n = re.subn(r'^(for\s+.*?\s+in\s+)', r'\1it: ', head, count=1, flags=re.S)
+            head2, n = re.subn(r'^(for\s+.*?\s+in\s+)', r'\1' + gname + ': ', head, count=1, flags=re.S)
             if n != 1:
                 raise AnchorError('cannot rewrite for-loop head: ' + head)
             head = head2
